@@ -32,7 +32,7 @@ def gen(rng, depth):
         if r < 0.9:
             return E.num(Fraction(rng.randint(1, 9), rng.choice([2, 3, 4, 7])))
         return E.num(Fraction(rng.choice(["0.5", "2.25", "0.125", "1.75"])))
-    k = rng.choice(["add", "add", "mul", "mul", "sub", "div", "pow-int", "pow-neg", "pow-half", "pow-nested", "pow-numbase", "neg",
+    k = rng.choice(["add", "add", "mul", "mul", "sub", "div", "pow-int", "pow-neg", "pow-half", "pow-nested", "pow-nested", "pow-numbase", "neg",
                     "f", "g", "builtin", "builtin", "max", "sum", "mod"])
     a, b = gen(rng, depth - 1), gen(rng, depth - 1)
     if k in ("add", "mul", "sub"):
@@ -45,6 +45,11 @@ def gen(rng, depth):
         return E.op("pow", a, E.num(rng.choice([-1, -2])))
     if k == "pow-half":
         return E.op("pow", E.sym(rng.choice(SYMS)), E.num(Fraction(rng.choice([1, 3, -1]), 2)))
+    if k == "pow-nested" and rng.random() < 0.5:
+        # an even power of a DIFFERENCE under a fractional or symbolic outer exponent: flattening it is wrong wherever
+        # the difference is negative ( ((x - y)^2)^(1/2) is |x - y|, not x - y )
+        x, y = rng.sample(SYMS, 2)
+        return E.op("pow", E.op("pow", E.op("sub", E.sym(x), E.sym(y)), E.num(2)), rng.choice([E.num(Fraction(1, 2)), E.num(Fraction(1, 2)), E.sym("K")]))
     if k == "pow-nested":
         return E.op("pow", E.op("pow", E.sym(rng.choice(SYMS)), E.num(2)), E.sym(rng.choice(["y", "x"])))
     if k == "pow-numbase":
